@@ -107,44 +107,68 @@ def drivers_for(tu):
     return out
 
 
-def native_misaligned(finding, tag):
-    """build + run the drivers with the PDU at odd addresses under -fsanitize=alignment; confirmed when
-    UBSan reports a misaligned access inside the function named by the finding"""
-    d = os.path.join(core.REPLAY_DIR, '%s-c15-%s-%s' % (tag, os.path.basename(finding['tu']).replace('.', '_'), finding['function']))
+CTYPE_BITS = {'uint8_t': 'i8', 'int8_t': 'i8', 'char': 'i8', 'uint16_t': 'i16', 'int16_t': 'i16', 'short': 'i16',
+              'uint32_t': 'i32', 'int32_t': 'i32', 'float': 'i32', 'int': 'i32', 'unsigned int': 'i32',
+              'uint64_t': 'i64', 'int64_t': 'i64', 'double': 'i64', 'long': 'i64', 'unsigned long': 'i64'}
+
+
+def native_misaligned(finding, tag, allowed=None):
+    """build + run the drivers of the TU with the PDU at odd addresses under -fsanitize=alignment
+    (recovering, so that every misaligned site is reported).  Distinct UBSan report sites inside the
+    function named by the finding, of the finding's kind and width, are counted; confirmed when there
+    are more of them than the known findings allow (any, for an unknown class)."""
+    d = os.path.join(core.REPLAY_DIR, '%s-c15-%s-%s-%s-%s' % (tag, os.path.basename(finding['tu']).replace('.', '_'),
+                                                       finding['function'], finding['kind'], finding['type']))
     os.makedirs(d, exist_ok=True)
     json.dump({k: v for k, v in finding.items()}, open(os.path.join(d, 'finding.json'), 'w'), indent=1)
     res = finding.get('model_root_address') or 1
-    offs = [res % 8 or 1, 1, 2, 4]
+    offs = sorted({res % 8 or 1, 1, 2, 4})
     log = []
+    sites = set()
     n = 0
+    want_kind = 'store' if finding['kind'] in ('store', 'memcpy-dst', 'memset') else 'load'
     for (src, sources) in drivers_for(finding['tu']):
         n += 1
         hp = os.path.join(d, 'driver%d.c' % n)
         open(hp, 'w').write(src)
         open(os.path.join(d, 'vp_replay_in.h'), 'w').write('#define VP_REPLAY_INIT {0}\n')
-        for off in offs[:2]:
+        for off in offs:
             exe = os.path.join(d, 'drv.bin')
-            cmd = ['gcc', '-std=gnu99', '-O0', '-g', '-w', '-fsanitize=alignment', '-fno-sanitize-recover=all',
+            cmd = ['gcc', '-std=gnu99', '-O0', '-g', '-w', '-fsanitize=alignment', '-fsanitize-recover=alignment',
                    '-DVP_REPLAY', '-DVP_MISALIGN=%d' % off, '-I' + core.HARNESS_DIR, '-I' + os.path.join(core.REPO, 'include'),
                    '-I' + d, hp] + [os.path.join(core.REPO, s) for s in sources] + ['-o', exe, '-lm']
             rc, out, err, wall, rss = core.run_cmd(cmd, 120, None, cwd=d)
             if rc != 0:
                 log.append('driver %d: build failed: %s' % (n, (out + err).decode(errors='replace')[-300:]))
                 break
-            env = dict(os.environ, UBSAN_OPTIONS='print_stacktrace=1:halt_on_error=1')
+            env = dict(os.environ, UBSAN_OPTIONS='print_stacktrace=1:halt_on_error=0')
             rc, out, err, wall, rss = core.run_cmd([exe], 60, None, cwd=d, env=env)
             text = (out + err).decode(errors='replace')
             try:
                 os.unlink(exe)
             except OSError:
                 pass
-            if 'misaligned address' in text and re.search(r'\bin %s\b' % re.escape(finding['function']), text):
-                open(os.path.join(d, 'replay.log'), 'w').write(text[-3000:])
-                with open(os.path.join(d, 'README'), 'w') as f:
-                    f.write('driver%d.c built with -fsanitize=alignment -DVP_MISALIGN=%d\n' % (n, off))
-                return True, d, text[-1500:]
-    open(os.path.join(d, 'replay.log'), 'w').write('\n'.join(log) or 'no driver reported a misaligned access in the function')
-    return False, d, '\n'.join(log)
+            lines = text.splitlines()
+            for i, l in enumerate(lines):
+                m = re.match(r"(\S+?):(\d+):(\d+): runtime error: (load of|store to|member access within) misaligned address \S+ for type '([^']+)'", l)
+                if not m:
+                    continue
+                kind = 'store' if m.group(4) == 'store to' else 'load'
+                bits = CTYPE_BITS.get(m.group(5).replace('const ', '').strip(), m.group(5))
+                fn = ''
+                for l2 in lines[i + 1:i + 8]:
+                    m2 = re.search(r'#0 \S+ in (\w+)', l2)
+                    if m2:
+                        fn = m2.group(1)
+                        break
+                if fn == finding['function'] and kind == want_kind and bits == finding['type']:
+                    sites.add('%s:%s:%s' % (os.path.basename(m.group(1)), m.group(2), m.group(3)))
+    limit = allowed or 0
+    with open(os.path.join(d, 'replay.log'), 'w') as f:
+        f.write('UBSan (-fsanitize=alignment) distinct misaligned %s sites of %s in %s with the PDU at odd addresses: %d (known findings allow %d)\n%s\n%s\n'
+                % (want_kind, finding['type'], finding['function'], len(sites), limit, '\n'.join(sorted(sites)), '\n'.join(log)))
+    text = open(os.path.join(d, 'replay.log')).read()
+    return len(sites) > limit, d, text[-1500:]
 
 
 def run(tier, only=None):
@@ -212,7 +236,7 @@ def run(tier, only=None):
                 % (key[0], len(fl), key[2], key[3], f0['align'], key[1], lvl,
                    ' (known finding allows %d)' % mx if mx is not None else '', f0['root'], f0['promised'],
                    hex(f0['model_root_address']) if f0['model_root_address'] is not None else '?'))
-        ok, path, text = native_misaligned(f0, 'C15')
+        ok, path, text = native_misaligned(f0, 'C15', mx)
         if ok:
             chk.add_violation_external(what, path, text)
         else:
